@@ -388,25 +388,20 @@ def fused (ru : LiveRange.FuseRules) (g : Graph) (s : St) (d : FuseDesc) (o : Na
 /-! ## Well-formedness of a graph description (evaluated by the driver on every real graph) -/
 
 /-- * every operator input that is not pass-internal is a pass input (`pack_into_passes`);
-    * `tens.ops` and `ps.outputs` agree; every tensor a pass reads has a producer;
-    * passes are in execution order: producers come before readers;
-    * all producers of a tensor lie in one subgraph;
-    * the IFMs of the operator the decision is about are inputs of its pass, its OFM an output. -/
+    * every tensor a pass reads has a producer, every producer is an earlier pass (execution order) that lists the
+      tensor in `ps.outputs`, and all producers lie in one subgraph; a tensor in `ps.outputs` has that pass in `ops`;
+    * the IFMs of the operator the decision is about are inputs of its pass. -/
 def Graph.wf (g : Graph) : Bool :=
-  let np := g.passes.length
-  (List.range np).all fun q =>
+  (List.range g.passes.length).all fun q =>
     let p := g.passAt q
     p.reads.all (fun t => p.inputs.contains t) &&
-    p.reads.all (fun t => decide (t < g.tens.length) && match g.tens[t]? with
-      | some d => !d.ops.isEmpty && d.ops.all (fun i => decide (i < q)) && d.ops.all (fun i => g.sg i == g.sg (d.ops.headD 0))
+    p.reads.all (fun t => match g.tens[t]? with
+      | some d => !d.ops.isEmpty &&
+                  d.ops.all (fun i => decide (i < q) && (g.passAt i).outputs.contains t && g.sg i == g.sg (d.ops.headD 0))
       | none => false) &&
     p.outputs.all (fun t => match g.tens[t]? with | some d => d.ops.contains q | none => false) &&
     (match p.ifm with | some t => p.reads.contains t | none => true) &&
-    (match p.ifm2 with | some t => p.reads.contains t | none => true) &&
-    (match p.ofm with | some t => p.outputs.contains t | none => true)
-  && (List.range g.tens.length).all fun t => match g.tens[t]? with
-      | some d => d.ops.all (fun i => decide (i < np) && (g.passAt i).outputs.contains t)
-      | none => false
+    (match p.ifm2 with | some t => p.reads.contains t | none => true)
 
 /-- pass `q` of the description reads tensor `a` -/
 def Graph.readsAt (g : Graph) (q a : Nat) : Bool := (g.passAt q).reads.contains a
